@@ -685,7 +685,21 @@ def list_files_post(prop):
             # the next page is requested with this page's NextContinuationToken
             res.oblige(p, f'{prop}.s3.list_files.follows_next_continuation_token', t1z == z3.If(
                 z3.And(tag == S('NextContinuationToken'), z3.Not(last_page)), text, t0z))
-        res.oblige([], f'{prop}.s3.list_files.sites_checked', z3.BoolVal(n_req >= 1 and n_ev >= 3))
+        # between the end of a page and the next request NOTHING else decides about continuing: what the page's IsTruncated /
+        # NextContinuationToken elements said is what the next iteration of the page loop sees (a short page is not a last page)
+        n_pages = 0
+        for p in res.body_paths('While#1'):
+            if p.kind not in ('normal', 'continue') or '$exit_For#1' not in p.st.ghost:
+                continue
+            n_pages += 1
+            after_page = p.st.ghost['$exit_For#1']
+            for var, ty in (('is_truncated', BOOL), ('continuation_token', Opt(STR))):
+                a, c = after_page.get(var), p.st.lookup(var)
+                same = (a is c) or (a is not None and c is not None and not isinstance(a, bool) and not isinstance(c, bool)
+                                     and isinstance(a, SV) and isinstance(c, SV) and z3.eq(a.z, c.z)) or (isinstance(a, bool) and isinstance(c, bool) and a == c)
+                res.oblige(p, f'{prop}.s3.list_files.continuation_decided_by_the_page_alone[{var}]',
+                           z3.BoolVal(True) if same else (sym.lift(a, ty).z == sym.lift(c, ty).z if a is not None and c is not None else z3.BoolVal(False)))
+        res.oblige([], f'{prop}.s3.list_files.sites_checked', z3.BoolVal(n_req >= 1 and n_ev >= 3 and n_pages >= 1))
     return post
 
 
